@@ -479,6 +479,21 @@ def main():
         # apply arbitrary Data as a parameter (never panic)
         for _ in range(200 * scale):
             lj({"op": "apply", "blueprint": bp, "steps": [{"module": None, "validator": bp["validators"][0]["title"].split(".")[1], "param": G.gen_data(rng, 3)}], "save_load": False}, "apply-arbitrary-data")
+        # ... and the same on mutated blueprints: a file that loads but is inconsistent (a
+        # definition set to null, a dangling $ref, a parameter schema of another kind, broken
+        # compiledCode) must be refused by `blueprint apply`, not crash it
+        conforming = {"c": "0", "f": [{"i": "1"}, {"b": ""}]}
+        vname = bp["validators"][0]["title"].split(".")[1]
+        for i in range(500 * scale):
+            m = bp
+            if i % 5 == 0 and isinstance(m.get("definitions"), dict) and m["definitions"]:
+                m = dict(m)
+                m["definitions"] = dict(m["definitions"])
+                m["definitions"][rng.pick(sorted(m["definitions"]))] = rng.pick([None, {}, {"$ref": "#/definitions/Nope"}])
+            else:
+                for _ in range(1 + rng.below(2)):
+                    m = mutate_json(rng, m)
+            lj({"op": "apply", "blueprint": m, "steps": [{"module": None, "validator": vname, "param": conforming if i % 2 else G.gen_data(rng, 2)}], "save_load": True}, "apply-on-mutated-blueprint")
     for d in [16, 64, 120, 200, MAX_NEST]:
         lj({"op": "json_load", "kind": "schema", "text": '{"dataType":"list","items":' * d + '{"dataType":"integer"}' + "}" * d}, "json-schema-nest")
         lj({"op": "json_load", "kind": "blueprint", "text": "[" * d + "]" * d}, "json-nest")
